@@ -101,6 +101,9 @@ impl PayloadWriter {
             // of the last metric, since the previous parts of the buffer are still valid and could be flushed.
             self.buf.truncate(self.last_offset());
 
+            // Truncating also removed the length placeholder that was written for this payload, so put it back.
+            self.prepare_for_write();
+
             return false;
         }
 
